@@ -91,6 +91,10 @@ package flag
 //@   flag vacuity off
 //@   requires s != nil && s.NameCfg != nil && ptyp != nil
 //@   modifies *
+//@   at call transform.NewAliasMangler(:
+//@     assert C14_both_the_dials_and_the_dialsflag_alias_tags_are_honoured: len(arg0) == 2 && cell(selem(arg0, 0), "string") == "dials" && cell(selem(arg0, 1), "string") == "dialsflag"
+//@   at call s.Flags.Lookup(name):
+//@     assert C12_C18_a_leaf_is_recorded_under_its_flag_name_before_anything_is_skipped: mhas(s.flagFieldName, name) && mget(s.flagFieldName, name) == sf.Name
 //@   at call transform.NewTransformer(:
 //@     assert C14_C12_aliases_are_expanded_before_flattening: len(arg1) == 2 && isType(cell(selem(arg1, 0), "Iface"), "*transform.AliasMangler")
 //@          && isType(cell(selem(arg1, 1), "Iface"), "*transform.FlattenMangler")
